@@ -646,7 +646,7 @@ pub fn exec(world: &mut World, xs: &mut St, code: i64, p: &[i64]) -> Out {
             (99, 0) => {
                 xs.readers.clear();
                 let old = std::mem::replace(world, World::new());
-                if xs.hs.len() % 2 == 1 {
+                if xs.hs.len() % 2 == 1 && !std::thread::panicking() {
                     // (for worlds with an odd number of handles) the world dies while a panic raised by the caller
                     // unwinds through the frame that owns it: exactly the same values must be destroyed
                     struct CallerPanic;
@@ -742,7 +742,7 @@ pub fn run_history(ints: &[i64]) -> Vec<Out> {
     // leaving the history: whatever is still in the world is destroyed now, unobserved - for every other history
     // (by a checksum of its numbers) while a panic raised by the caller unwinds through the frame that owns the world,
     // which must destroy exactly the same values
-    if ints.iter().fold(0i64, |a, &b| a.wrapping_add(b)) & 1 == 1 {
+    if ints.iter().fold(0i64, |a, &b| a.wrapping_add(b)) & 1 == 1 && !std::thread::panicking() {
         struct CallerPanic;
         let _ = catch_unwind(AssertUnwindSafe(move || {
             let _owner = ex;
